@@ -258,6 +258,30 @@ func TestVerifC12KFBinaryLoneQuote(t *testing.T) {
 	}
 }
 
+func TestVerifC12KFBinaryEmptyKeyLoneQuote(t *testing.T) {
+	st := verifkit.For("C12", "TestVerifC12KFBinaryEmptyKeyLoneQuote", "directed: binary point frames in which a field with an EMPTY key has the lone-quote value (fields section ends in ,=\" or is =\"); reproduced when NewPointFromBytes accepts the frame and iterating its fields the way Engine.WritePoints does (StringValue of every String field) panics")
+	defer st.Flush()
+	for _, fields := range []string{`a=1,="`, `,=,="`, `a=,="`} {
+		frame := vC12Frame("m,t=v", fields)
+		var q Point
+		var derr error
+		reproduced := ""
+		if e := vC12Safely("decoder", func() *vC12Err { q, derr = NewPointFromBytes(frame); return nil }); e != nil {
+			reproduced = e.msg
+		} else if derr == nil {
+			if e := vC12ExerciseDecoded(q); e != nil {
+				reproduced = fmt.Sprintf("accepted, then %s", e.msg)
+			}
+		}
+		st.Case(true, fields, "kf-input")
+		if reproduced != "" {
+			st.KnownReproduced(vC12SigBinaryEmptyKeyLQ, fmt.Sprintf("binary point with fields %q: %s", fields, reproduced))
+			st.Class("kf-reproduced", 1)
+		}
+		st.Sample(map[string]interface{}{"fields": fields, "reproduced": reproduced})
+	}
+}
+
 // ------------------------------------------------------------------------------------------- native fuzz
 
 func vC12Seeds() []string {
@@ -332,7 +356,7 @@ func FuzzVerifC12Binary(f *testing.F) {
 			return
 		}
 		if vC12LoneQuoteField(q.(*point).fields) {
-			return // known finding shape
+			return // known finding shape (empty field key with a lone quote as value)
 		}
 		if e := vC12ExerciseDecoded(q); e != nil {
 			t.Fatalf("%s NewPointFromBytes(%q) accepted: %s", verifkit.Sig(e.sig), orig, e.msg)
